@@ -196,6 +196,9 @@ func StrLit(s string) string {
 	return sb.String()
 }
 
+// BareOK: the name can be written without quotes.
+func BareOK(s string) bool { return bareOK(s) }
+
 func bareOK(s string) bool {
 	if s == "" {
 		return false
